@@ -107,6 +107,39 @@ def histories(n, rng, quick):
     return out + extra
 
 
+def random_history(rng, quick):
+    """creations, uses, attribute changes and disposals in random order; a disposal is usually followed at once by the
+    creation of a new driver with other settings (CPython then tends to reuse the address of the dropped object)"""
+    insts, hist, live = [], [], []
+    n_ev = rng.range(6, 12 if quick else 18)
+
+    def create():
+        insts.append(gen_attrs(rng, len(insts) + 1, "inst"))
+        hist.append(["c", len(insts) - 1])
+        live.append(len(insts) - 1)
+
+    create()
+    while len(hist) < n_ev:
+        k = rng.weighted([("u", 5), ("c", 2), ("m", 2), ("d", 2)]) if live else "c"
+        if k == "c":
+            create()
+        elif k == "u":
+            hist.append(["u", rng.choice(live)])
+        elif k == "m":
+            i = rng.choice(live)
+            hist.append(["m", i, gen_attrs(rng, 30 + len(hist), "inst")])
+            if rng.chance(2, 3):
+                hist.append(["u", i])
+        else:
+            i = rng.choice(live)
+            live.remove(i)
+            hist.append(["d", i])
+            if rng.chance(3, 4):
+                create()
+                hist.append(["u", live[-1]])
+    return insts, hist
+
+
 def check_binding(ctx):
     reqs = []
     n_settings = 2 if ctx.quick() else 8
@@ -125,6 +158,19 @@ def check_binding(ctx):
                 oracle_bind(ctx, scen, observed)
                 line = f"bind r {attrs_tok(decl)} {attrs_tok(cls_attrs)} " + " ".join(evtoks)
                 reqs.append((line, observed, scen))
+    # histories with attribute changes and disposals
+    for rep in range(60 if ctx.quick() else 600):
+        cls_attrs = gen_attrs(ctx.rng, 0, "cls") if ctx.rng.chance(1, 2) else {}
+        decl = gen_attrs(ctx.rng, 0, "decl") if ctx.rng.chance(1, 4) else {}
+        insts, h = random_history(ctx.rng, ctx.quick())
+        scen = {"section": "bind", "cls": cls_attrs, "decl": decl, "insts": insts, "history": h}
+        observed, evtoks = run_bind_scenario(scen)
+        ctx.case(json.dumps(scen, sort_keys=True), nontrivial=any(e[0] in ("m", "d") for e in h))
+        ctx.count("bind-random-history")
+        for e in h:
+            ctx.count({"c": "bind-event:create", "u": "bind-event:use", "m": "bind-event:attributes-changed", "d": "bind-event:driver-discarded"}[e[0]])
+        oracle_bind(ctx, scen, observed)
+        reqs.append((f"bind r {attrs_tok(decl)} {attrs_tok(cls_attrs)} " + " ".join(evtoks), observed, scen))
     # the real XTB driver: two instances, used in the order second, first, second
     xs = xtb_scenario(ctx)
     outs = ctx.driver([r[0] for r in reqs])
@@ -148,22 +194,40 @@ def bound_tok(o):
 
 def run_bind_scenario(scen):
     """replay a history on the real descriptor; returns the settings seen in each prepared JobInput"""
+    import gc
+
     T = make_driver_class(scen["cls"], scen["decl"])
     drivers = {}
+    current = {}
     observed, evtoks = [], []
-    for kind, i in scen["history"]:
+
+    def seen_tok(d):
+        return attrs_tok({"executable": d.executable, "nprocs": d.nprocs, "memory": d.memory, "envars": d.envars})
+
+    for ev in scen["history"]:
+        kind, i = ev[0], ev[1]
         if kind == "c":
             a = scen["insts"][i]
             drivers[i] = T(executable=a.get("executable"), nprocs=a.get("nprocs"), memory=a.get("memory"),
                            envars=a.get("envars"), check_exe=False, find=False)
+            current[i] = a
+            evtoks.append(f"c{i}:{seen_tok(drivers[i])}")
+        elif kind == "m":
+            a = ev[2]
             d = drivers[i]
-            seen = {"executable": d.executable, "nprocs": d.nprocs, "memory": d.memory, "envars": d.envars}
-            evtoks.append(f"c{i}:{attrs_tok(seen)}")
+            d.executable, d.nprocs, d.memory, d.envars = a.get("executable"), a.get("nprocs"), a.get("memory"), a.get("envars")
+            current[i] = a
+            evtoks.append(f"m{i}:{seen_tok(d)}")
+        elif kind == "d":
+            del drivers[i]
+            current.pop(i, None)
+            gc.collect()
+            evtoks.append(f"d{i}")
         else:
             inp = drivers[i].task.prepare(f"obj{i}", "arg", i)
             s = json.loads(inp.commands[0][0])
             observed.append({"exe": s["exe"], "nprocs": s["nprocs"], "memory": s["memory"], "args": s["args"],
-                             "envars": dict(inp.envars or {}), "jid": inp.jid, "inst": i,
+                             "envars": dict(inp.envars or {}), "jid": inp.jid, "inst": i, "attrs": dict(current[i]),
                              "return_files": list(inp.return_files or ())})
             evtoks.append(f"u{i}")
     return observed, evtoks
@@ -172,7 +236,7 @@ def run_bind_scenario(scen):
 def oracle_bind(ctx, scen, observed):
     decl, cls = scen["decl"], scen["cls"]
     for o in observed:
-        a = scen["insts"][o["inst"]]
+        a = o.get("attrs", scen["insts"][o["inst"]])     # the attributes the driver has when it is used
         what = None
         if not decl.get("executable") and a.get("executable") and o["exe"] != a["executable"]:
             what = f"executable {o['exe']!r}, the driver used has {a['executable']!r}"
@@ -245,7 +309,8 @@ def gen_run_scenario(rng, quick):
         kind = rng.choice(["text", "bin"])
         infiles[fn] = {"kind": kind, "data": gen_content(rng, kind) if kind == "text" else gen_content(rng, kind).hex()}
     envars = {v: f"job-{v}" for v in VARS if rng.chance(1, 3)}
-    base = {v: f"base-{v}" for v in VARS if rng.chance(1, 3)}
+    # variables preset in the runner's own environment: often the very ones the job overrides
+    base = {v: f"base-{v}" for v in VARS if rng.chance(1, 2 if v in envars else 4)}
     cmds = []
     created = set(infiles)
     caps = []
@@ -276,10 +341,18 @@ def gen_run_scenario(rng, quick):
         err = rng.choice(["", "", "warn %d\n" % i, "E: bad thing\n"])
         code = 0
         if fail_at == i:
-            code = rng.choice([1, 2, 3, 127, 255])
+            # positive exit statuses and deaths by signal (subprocess reports -signal)
+            code = rng.choice([1, 2, 3, 127, 255, -9, -15, -11, -2, -9])
         cmds.append({"name": name, "code": code, "out": out, "err": err, "effects": effects})
         if name:
             caps += [f"{name}.out", f"{name}.err"]
+    probe = None
+    if (envars or base) and rng.chance(2, 3):
+        # the first command reports one of these variables in a file that is requested back
+        both = [v for v in envars if v in base]
+        probe = rng.choice(both or sorted(set(envars) | set(base)))
+        cmds[0]["effects"].append(["e", probe, "env.txt"])
+        created.add("env.txt")
     rstyle = rng.weighted([("some", 6), ("empty", 1), ("none", 1)])
     if rstyle == "some":
         pool = sorted(created) + ["missing.dat", "never.txt"] + caps[:2]
@@ -290,6 +363,8 @@ def gen_run_scenario(rng, quick):
                 ret.append(f)
     else:
         ret = [] if rstyle == "empty" else None
+    if probe and ret is not None and "env.txt" not in ret:
+        ret.append("env.txt")
     return {"section": "run", "jid": rng.choice(["job", "mol_1", "x"]), "files": infiles, "envars": envars, "base": base,
             "cmds": cmds, "ret": ret, "scratch_entries": rng.choice([[], ["keep.txt"], ["keep.txt", "other_dir"]])}
 
@@ -313,7 +388,9 @@ def build_job(scen, trace: Path):
                 parts.append(f"rm -f {shlex.quote(e[1])}")
             else:
                 parts.append(f"printf '%s' \"${e[1]}\" > {shlex.quote(e[2])}")
-        parts.append(f"exit {c['code']}")
+        if c["code"] < 0:
+            parts.append(f"ulimit -c 0; kill -{-c['code']} $$; sleep 5")     # the shell kills itself
+        parts.append(f"exit {c['code'] if c['code'] >= 0 else 0}")
         commands.append((shlex.join(["sh", "-c", "; ".join(parts)]), c["name"]))
     files = {fn: (f["data"] if f["kind"] == "text" else bytes.fromhex(f["data"])) for fn, f in scen["files"].items()}
     kw = {}
@@ -543,10 +620,14 @@ def check_running(ctx, n_cases, n_entry, corpus):
         ctx.case(json.dumps(s, sort_keys=True), nontrivial=len(s["cmds"]) > 1 or bool(s["ret"]))
         ctx.count(f"run-commands={len(s['cmds'])}")
         ctx.count(f"run-first-failure={'none' if fail_pos is None else fail_pos}")
+        if fail_pos is not None:
+            ctx.count("run-failure-kind:" + ("signal" if s["cmds"][fail_pos]["code"] < 0 else "exit-status"))
         ctx.count("run-return_files=" + ("None" if s["ret"] is None else "empty" if not s["ret"] else "some"))
         ctx.count(f"run-input-files={len(s['files'])}")
         if s["envars"]:
             ctx.count("run-env-overrides")
+        if any(v in s["base"] for v in s["envars"]):
+            ctx.count("run-env-override-of-a-preset-variable")
         oracle_run(ctx, s, obs, s)
         reqs.append((run_line(s), obs_line(obs), s))
         if idx < 2:
@@ -581,9 +662,11 @@ def load_corpus():
 
 def run(ctx):
     ctx.rule = ("Part 1: for 2 and 3 driver instances with distinct settings (class / declaration / instance levels randomly "
-                "present) EVERY order of creations and uses (6 + 90 orders, creation before use) plus histories with repeated uses; "
+                "present) EVERY order of creations and uses (6 + 90 orders, creation before use), histories with repeated uses, and random "
+                "histories of 6..18 events in which drivers are also re-configured (attributes assigned) and discarded (del + gc) and "
+                "followed by new drivers with other settings; "
                 "non-trivial = the instances differ. Part 2: command lists of length 1..4, first failure at every position or none, "
-                "exit codes {1,2,3,127,255}, named/unnamed commands, 0..3 text/binary input files (empty, NUL, 0xFF, CRLF, UTF-8), "
+                "failures by exit status {1,2,3,127,255} or by signal {KILL,TERM,SEGV,INT}, named/unnamed commands, 0..3 text/binary input files (empty, NUL, 0xFF, CRLF, UTF-8), "
                 "scripted writes/copies/removals/environment dumps, return_files = subset of created, input, capture and missing "
                 "names / empty / None, environment overrides in job and runner, pre-populated scratch directory; non-trivial = more "
                 "than one command or a requested file. Distinct by canonical scenario.")
